@@ -169,6 +169,7 @@ func firstUse(cx *lib.Ctx) {
 	sharedSchema(cx)
 	nilContext(cx)
 	deepDynamic(cx)
+	partialTrees(cx)
 }
 
 // firstUseBody: the first content extraction on a freshly parsed body, by all goroutines at once, with schemas
